@@ -362,6 +362,7 @@ def mechanisms(raw_tree, exp):
         sels = [(c.alias, c.this) for c in raw_tree.ctes] + [(None, main)]
         by_name = {a: s_ for a, s_ in sels if a}
         order_keys = set()     # names used as ORDER BY keys in an earlier SELECT without LIMIT
+        limit_below = {}       # CTE name -> some SELECT at or below it has a LIMIT
 
         def is_plain(item, n):
             e = item.this if isinstance(item, exp.Alias) else item
@@ -371,14 +372,18 @@ def mechanisms(raw_tree, exp):
 
         for alias, sel in sels:
             if not isinstance(sel, exp.Select):
+                if alias:
+                    limit_below[alias] = any(limit_below.get(t.name) for t in sel.find_all(exp.Table))
                 continue
             frm = sel.args.get("from")
-            src = by_name.get(frm.this.name) if frm is not None and isinstance(frm.this, exp.Table) else None
+            src_name = frm.this.name if frm is not None and isinstance(frm.this, exp.Table) else None
             items = list(sel.expressions)
             defs = {i.alias_or_name: i for i in items}
             where = sel.args.get("where")
-            if where is not None and isinstance(src, exp.Select) and src.args.get("limit") is not None:
+            if where is not None and limit_below.get(src_name):
                 out.append("filter-pushed-below-limit")
+            if alias:
+                limit_below[alias] = sel.args.get("limit") is not None or bool(limit_below.get(src_name))
             if where is not None:
                 for c in where.find_all(exp.Column):
                     if not c.table and c.name in defs and not is_plain(defs[c.name], c.name):
@@ -393,9 +398,13 @@ def mechanisms(raw_tree, exp):
                 if hit:
                     out.append("select-item-captured-by-sibling-alias")
                     break
-            for n in order_keys:
+            for n in sorted(order_keys):
                 if n in defs and not is_plain(defs[n], n):
                     out.append("order-key-captured-by-later-alias")
+                    break
+            for n in sorted(order_keys):
+                if n not in defs:
+                    out.append("order-key-dropped-by-later-projection")
                     break
             order = sel.args.get("order")
             if order is not None and sel.args.get("limit") is None:
@@ -415,7 +424,7 @@ def mechanisms(raw_tree, exp):
 
 
 MECH_ORDER = ["filter-pushed-below-limit", "where-captured-by-select-alias", "select-item-captured-by-sibling-alias",
-              "order-key-captured-by-later-alias"]
+              "order-key-captured-by-later-alias", "order-key-dropped-by-later-projection"]
 TAG_SIG = {"semi": "semi-anti-join-kind-lost", "anti": "semi-anti-join-kind-lost",
            "diamond": "shared-lineage", "selfjoin": "shared-lineage"}
 
@@ -1021,6 +1030,11 @@ def run(ctx: core.Ctx):
                     if m_ in mech:
                         shape = m_
                         break
+                else:
+                    txt = (cur[2] if cur is not None else d["text"]) or ""
+                    det = (cur[1] if cur is not None else d["detail"]) or ""
+                    if status == "exec-fails" and "Parser Error" in det and "IS NOT DISTINCT FROM" in txt:
+                        shape = "nullsafe-eq-printed-without-parentheses"
             except Exception:   # noqa: BLE001
                 pass
         else:
